@@ -14,7 +14,10 @@ Inductive c20case :=
 | CFromOS (l : list (N * N * N))                         (* os.FileMode, ModeFromOS, its QIDType *)
 | CMapSeq (h : list (N * N * N))                         (* Mapper index (one generator), source path, path returned; from fresh *)
 | CMapConc (h : list (N * N * N)) (c : list (N * N * N)) (* that history, then results of concurrent QIDFor calls *)
-| CFsConc (l : list (string * N)).                       (* name, QID path seen by some concurrent Walk/GetAttr/Readdir through composefs *)
+| CFsConc (l : list (string * N))
+(** real files through Local.info and its use sites.  Row: st_mode (lstat), os.FileInfo.Mode(), Attr.Mode from GetAttr,
+    dev, ino, then QID types and QID paths seen by info(), Walk, GetAttr, Readdir, Open (999 = not applicable). *)
+| CInfo (rows : list (N * N * N * N * N * list N * list N)).                       (* name, QID path seen by some concurrent Walk/GetAttr/Readdir through composefs *)
 
 (** * model side *)
 Fixpoint replay_l2q (t : list (key * N)) (n : N) (h : list (N * N * N)) : bool * (list (key * N) * N) :=
@@ -66,6 +69,14 @@ Definition agrees (c : c20case) : bool :=
                        | None => (m_gen s 0%nat <? r) && (r <? m_gen s 0%nat + 4294967296)
                        end) c
   | CFsConc l => forallb (fun '(_, p) => negb (p =? 0)) l
+  | CInfo rows =>
+      forallb (fun '(st, os, attr, dev, ino, tys, ps) =>
+                 (os_mode_of_stat st =? os) && (ModeFromOS os =? st) && (attr =? st) &&
+                 forallb (fun ty => (ty =? 999) || (ty =? info_type st)) tys &&
+                 match encodeLikely dev ino with
+                 | Some q => forallb (fun p => (p =? 999) || (p =? q)) ps
+                 | None => true
+                 end) rows
   end.
 
 (** * the property on the observation *)
@@ -101,6 +112,15 @@ Definition property_holds (c : c20case) : bool :=
   | CMapSeq h => consistent pair_eqb (map kv h) && forallb (fun '(_, _, r) => negb (r =? 0)) h
   | CMapConc h c => consistent pair_eqb (map kv (h ++ c)) && forallb (fun '(_, _, r) => negb (r =? 0)) (h ++ c)
   | CFsConc l => consistent String.eqb l
+  | CInfo rows =>
+      (* the QID type at every use site is the one of the file type GetAttr reports; one path per file, distinct files distinct paths *)
+      forallb (fun '(st, os, attr, dev, ino, tys, ps) =>
+                 forallb (fun ty => (ty =? 999) || (ty =? qidtype_of_type (FileType attr))) tys &&
+                 match ps with
+                 | p0 :: r => forallb (fun p => (p =? 999) || (p =? p0)) r
+                 | [] => true
+                 end) rows
+      && consistent pair_eqb (map (fun '(st, os, attr, dev, ino, tys, ps) => ((dev, ino), hd 0 ps)) rows)
   end.
 
 Fixpoint failing (f : c20case -> bool) (i : nat) (l : list c20case) : list nat :=
